@@ -1,7 +1,7 @@
-(* Entry point of the extracted model for property C07: run_C07 case = observation. *)
+(* Entry point of the extracted model for property C07: a demux scenario (see RunDemux.v). *)
 From Coq Require Import ZArith List.
-Require Import Base.Tok Base.Iter Extract.RunBase.
+Require Import Base.Tok Base.Iter Model.DemuxFull Extract.RunBase Extract.RunDemux.
 Import ListNotations.
 Open Scope Z_scope.
 
-Definition run_C07 (t : tok) : tok := TL [].
+Definition run_C07 (t : tok) : tok := run_demux full_parsers t.
